@@ -7,5 +7,5 @@ for n in "${names[@]}"; do
   id="${n%%-*}"
   if ! git -C /repo apply --check "/verif/seeded/$n/patch.diff" 2>/dev/null; then echo "$n: does not apply to HEAD (superseded)"; continue; fi
   out=$(./seedtest.sh "$id" "seeded/$n/patch.diff" "$id" 2>&1 | tail -1)
-  if echo "$out" | grep -q "exit=1"; then echo "$n: caught  $(echo "$out" | sed 's/.*sigs: *//' | cut -c1-110)"; else echo "$n: MISSED  $out"; fi
+  if echo "$out" | grep -q "exit=2"; then echo "$n: check broken or does not build with this change (exit 2): $out"; elif echo "$out" | grep -q "exit=1"; then echo "$n: caught  $(echo "$out" | sed 's/.*sigs: *//' | cut -c1-110)"; else echo "$n: MISSED  $out"; fi
 done
